@@ -95,8 +95,8 @@ SPEC = dict(
     props_module="Refinery.Props.C28",
     gen_module="Refinery.Gen.Nocrash",
     custom=custom,
-    quick=dict(cases=600, len=32, shards=4),
-    thorough=dict(cases=24000, len=40, shards=16),
+    quick=dict(cases=800, len=32, shards=4),
+    thorough=dict(cases=9600, len=40, shards=16),
     nontrivial=nontrivial,
     rule="PART A (proof + correspondence): a case = one rules file generated type-directed over the REAL rulesMeta.yaml "
          "(every sampler type; every key absent/present; boundary values 0, 1, -1, 2^31, 2^32-1, 2^32, 2^32+1, -2^32, 2^33, "
